@@ -483,6 +483,27 @@ def r_singleton_guard(F, V):
             R.violation(key, body, "%s requires an allocated table but is not guarded by a !is_empty_singleton() test of the same table: the static empty control group would be freed / a bogus layout computed" % (cp or "deallocate"),
                         line=line_of(body, bb=i))
             R.inst(key, "unguarded requires-allocated call", "violation", True, where(body, bb=i))
+    # into_allocation may claim "no allocation" (None) only for the static empty singleton
+    ia = F.bodies.get("raw::RawTable::into_allocation")
+    if ia is not None:
+        nones = [(i, s) for i, k, s in ia.stmts() if s["k"] == "assign" and s["rv"]["k"] == "aggregate" and s["rv"].get("variant") == "None" and "Option" in (s["rv"].get("adt") or "")]
+        key = "raw::RawTable::into_allocation|none-only-for-singleton"
+        ok = bool(nones)
+        why = ""
+        for (i, s) in nones:
+            good = False
+            for (bb, succ, S) in __import__("cond").controlling_sources(ia, i):
+                if S.has_call("is_empty_singleton") or S.has_load("bucket_mask"):
+                    good = True
+                if S.has_load("items") or S.has_call("::is_empty") and not S.has_call("is_empty_singleton") or S.has_call("::len"):
+                    good = False
+                    why = "the item count"
+            ok = ok and good
+        if ok:
+            R.inst(key, "None (nothing to free) is returned only on the is_empty_singleton() arm", "ok", True, where(ia))
+        else:
+            R.violation(key, ia, "into_allocation reports 'no allocation' depending on %s instead of is_empty_singleton(): an allocated but empty table would never be freed by the owning iterator" % (why or "something other than the singleton test"))
+            R.inst(key, "None arm not tied to the singleton", "violation", True, where(ia))
     R.floor("requires-allocated call sites", n, {"posctl": 1}.get(F.cfg, 6))
     return R
 
